@@ -18,7 +18,7 @@ from concurrent.futures import ThreadPoolExecutor
 import numpy as np
 import odl
 
-from ..tlc import run_tlc
+from ..tlc import run_tlc, parse_fails
 from ..common import dumps, MachineryError
 from .. import oputil as U
 
@@ -126,10 +126,8 @@ def validate_events(ctx, events, chunk=4000, name='trace'):
     fails = []
     for p, res in vres:
         ctx.add_tlc(name + '-' + os.path.basename(p), res)
-        for ln in res.output.splitlines():
-            m = re.match(r'<<"FAIL", (\d+), (\d+), (.*)>>$', ln.strip())
-            if m:
-                fails.append((int(m.group(2)), m.group(3)))
+        for _ln, _eid, _cl in parse_fails(res.output):
+            fails.append((_eid, _cl))
     return fails
 
 
